@@ -65,6 +65,12 @@ fn do_call(ep: &Endpoint, kind: Kind, tag: u32) -> Result<u64, String> {
         }
         Endpoint::Gpu(g) => match kind {
             Kind::R => g.get_edid(&VhostUserGpuEdidRequest { scanout_id: tag }).map(|r| r.size as u64).map_err(|e| format!("{e:?}")),
+            // acknowledged by an empty reply; the rectangle takes boundary values (incl. empty ones)
+            Kind::K => {
+                const LAT: [u32; 4] = [1, 0, 64, u32::MAX];
+                let u = VhostUserGpuUpdate { scanout_id: tag, x: LAT[(tag as usize / 16) % 4], y: LAT[(tag as usize / 64) % 4], width: LAT[tag as usize % 4], height: LAT[(tag as usize / 4) % 4] };
+                g.update_dmabuf_scanout(&u).map(|_| tag as u64 + 1000).map_err(|e| format!("{e:?}"))
+            }
             _ => g.set_scanout(&VhostUserGpuScanout { scanout_id: tag, width: 1, height: 1 }).map(|_| tag as u64 + 1000).map_err(|e| format!("{e:?}")),
         },
     }
@@ -98,7 +104,7 @@ fn peer_read(ep: Ep, peer_fd: RawFd) -> Option<PeerReq> {
     let (tag, owes) = match ep {
         Ep::Fe => (spec::rd_u32(&m.body, 0), h.code == fe::GET_VRING_BASE || h.flags & F_NEED_REPLY != 0),
         Ep::Be => (m.body[0] as u32, h.flags & F_NEED_REPLY != 0),
-        Ep::Gpu => (spec::rd_u32(&m.body, 0), h.code == gpu::GET_EDID),
+        Ep::Gpu => (spec::rd_u32(&m.body, 0), h.code == gpu::GET_EDID || h.code == gpu::DMABUF_UPDATE),
     };
     Some(PeerReq { tag, code: h.code, owes_reply: owes })
 }
@@ -107,6 +113,7 @@ fn peer_reply(ep: Ep, peer_fd: RawFd, r: &PeerReq) {
     let bytes = match ep {
         Ep::Fe if r.code == fe::GET_VRING_BASE => spec::msg(r.code, F_VERSION1 | F_REPLY, &spec::p_vring_state(r.tag, 7000 + r.tag)),
         Ep::Fe | Ep::Be => spec::msg(r.code, F_VERSION1 | F_REPLY, &spec::p_u64(0)),
+        Ep::Gpu if r.code == gpu::DMABUF_UPDATE => spec::msg(r.code, gpu::F_REPLY, &[]),
         Ep::Gpu => {
             // struct virtio_gpu_resp_edid: hdr(24) size(u32) padding(u32) edid[1024]; size carries the tag
             let mut p = vec![0u8; gpu::EDID_RESP_SIZE];
@@ -163,7 +170,8 @@ struct Caller {
 
 /// Run one schedule (priority list of actions). Returns a description of what happened.
 fn run_schedule(cfg: &Cfg, ep: Ep, kinds: &[Kind], order: &[Act], case: &str) {
-    let acked = kinds.iter().any(|k| *k == Kind::K);
+    // (on the GPU channel acknowledgement is per operation, not per endpoint)
+    let acked = ep != Ep::Gpu && kinds.iter().any(|k| *k == Kind::K);
     // F and K cannot be mixed on one endpoint (the flag is per endpoint): K wins
     let kinds: Vec<Kind> = kinds.iter().map(|k| if acked && *k == Kind::F { Kind::K } else { *k }).collect();
     let (endpoint, peer, ep_fd) = make_endpoint(ep, acked);
@@ -254,7 +262,7 @@ fn run_schedule(cfg: &Cfg, ep: Ep, kinds: &[Kind], order: &[Act], case: &str) {
                 }
                 Act::Reply(i) => {
                     owed.retain(|x| *x != i);
-                    let r = PeerReq { tag: callers[i].tag, code: match (ep, callers[i].kind) { (Ep::Fe, Kind::R) => fe::GET_VRING_BASE, (Ep::Fe, _) => fe::SET_VRING_NUM, (Ep::Be, _) => be::SHARED_OBJECT_ADD, (Ep::Gpu, _) => gpu::GET_EDID }, owes_reply: true };
+                    let r = PeerReq { tag: callers[i].tag, code: match (ep, callers[i].kind) { (Ep::Fe, Kind::R) => fe::GET_VRING_BASE, (Ep::Fe, _) => fe::SET_VRING_NUM, (Ep::Be, _) => be::SHARED_OBJECT_ADD, (Ep::Gpu, Kind::K) => gpu::DMABUF_UPDATE, (Ep::Gpu, _) => gpu::GET_EDID }, owes_reply: true };
                     peer_reply(ep, peer_fd, &r);
                     callers[i].reply_sent = true;
                 }
@@ -290,6 +298,10 @@ fn run_schedule(cfg: &Cfg, ep: Ep, kinds: &[Kind], order: &[Act], case: &str) {
             report::inconclusive(&format!("schedule {case}: watchdog expired without certificate"));
             break;
         }
+    }
+    // every reply the peer wrote was consumed by the call it answers
+    if violation.is_none() && callers.iter().all(|cl| cl.done.is_some()) && sys::inq(ep_fd) > 0 {
+        violation = Some(("reply-left-unread".into(), format!("all calls returned but {} reply bytes are still unread on the shared socket", sys::inq(ep_fd))));
     }
     // unblock everything and join
     c.free_run();
@@ -372,7 +384,7 @@ fn schedules(cfg: &Cfg, rng: &mut Rng) {
         let kinds2: Vec<[Kind; 2]> = match ep {
             Ep::Fe => vec![[Kind::R, Kind::R], [Kind::R, Kind::K], [Kind::K, Kind::R], [Kind::K, Kind::K], [Kind::R, Kind::F], [Kind::F, Kind::R], [Kind::F, Kind::F]],
             Ep::Be => vec![[Kind::K, Kind::K], [Kind::F, Kind::F]],
-            Ep::Gpu => vec![[Kind::R, Kind::R], [Kind::R, Kind::F], [Kind::F, Kind::R], [Kind::F, Kind::F]],
+            Ep::Gpu => vec![[Kind::R, Kind::R], [Kind::R, Kind::F], [Kind::F, Kind::R], [Kind::F, Kind::F], [Kind::K, Kind::R], [Kind::R, Kind::K], [Kind::K, Kind::K], [Kind::K, Kind::F], [Kind::F, Kind::K]],
         };
         for ks in kinds2 {
             let mut acts = Vec::new();
@@ -401,11 +413,10 @@ fn schedules(cfg: &Cfg, rng: &mut Rng) {
                 let k = *rng.pick(&all);
                 match (ep, k) {
                     (Ep::Be, Kind::R) => Kind::K,
-                    (Ep::Gpu, Kind::K) => Kind::R,
                     _ => k,
                 }
             }).collect();
-            let acked = ks.iter().any(|k| *k == Kind::K);
+            let acked = ep != Ep::Gpu && ks.iter().any(|k| *k == Kind::K);
             let mut acts = Vec::new();
             for (i, k) in ks.iter().enumerate() {
                 acts.push(Act::Start(i));
@@ -465,7 +476,7 @@ fn stress(cfg: &Cfg, rng: &mut Rng) {
                 let mut wrong = Vec::new();
                 for i in 0..calls {
                     let tag = (t * 16 + i % 16) % 250 + 1;
-                    let kind = if ep == Ep::Gpu || (ep == Ep::Fe && i % 2 == 0) { Kind::R } else { Kind::K };
+                    let kind = if (ep == Ep::Gpu && i % 3 != 0) || (ep == Ep::Fe && i % 2 == 0) { Kind::R } else { Kind::K };
                     let kind = if ep == Ep::Be { Kind::K } else { kind };
                     let r = do_call(&e2, kind, tag);
                     if r != Ok(expected_value(kind, tag)) {
@@ -481,6 +492,10 @@ fn stress(cfg: &Cfg, rng: &mut Rng) {
         let mut wrong = Vec::new();
         for h in hs {
             wrong.extend(h.join().unwrap_or_default());
+        }
+        let unread = if wrong.is_empty() { sys::inq(ep_fd) } else { 0 };
+        if unread > 0 {
+            wrong.push(format!("all calls returned but {unread} reply bytes are still unread on the shared socket"));
         }
         unsafe { libc::shutdown(ep_fd, libc::SHUT_RDWR) };
         let (served, overlap) = peer_h.join().unwrap_or((0, 0));
